@@ -46,6 +46,9 @@
    Strings are data: values, result names and templates contain format braces, '%', case variants.
    Frame conditions (ReqObject / ReqFiles, emitted as `req`): ArgumentsUnchanged, QueryIsPure,
    EarlierResultsUnchanged, LoadedIsIndependent, ReturnedNameIsTheFile, RejectedSaveChangesNothing.
+   Histories: results are folds of update AND merge items (RMerge); SaveHistCase folds save / in-place parameter
+   change / set_parameters / result update / reload sequences over ONE object and its directory
+   (SaveNameIsCurrent, SavedFilesRoundTrip; Hyp.StaleNameCache and Hyp.ZeroUpdatesSkipsState are refuted).
    Every scalar FIELD also takes its falsy-but-valid values (current_rep 0, runned_reps 0 / [0,0] / [], value 0 /
    0.0 / "" / None / [] / empty set, result name "", original_filename None / "", unpack index 0).
    Pickle is the identity on this universe at model level; the harness checks it on the real files.
